@@ -275,14 +275,27 @@ class Replacer:
 
     def __init__(self, base):
         self.base = self.extract_base(base)
-        # path and query of the sheet itself
-        _, _, self.path, self.query, _ = urllib.parse.urlsplit(base)
+        # scheme, host, path and query of the sheet itself
+        self.scheme, self.location, self.path, self.query, _ = (
+            urllib.parse.urlsplit(base)
+        )
 
     def __call__(self, uri):
         scheme, location, path, query, fragment = urllib.parse.urlsplit(uri)
-        if scheme or location or path.startswith('/'):
+        if scheme:
             # keep anything absolute
             return uri
+        if location or path.startswith('/'):
+            # relative to the scheme or host the sheet came from
+            if not (self.scheme or self.location):
+                return uri
+            return urllib.parse.urlunsplit((
+                self.scheme,
+                location or self.location,
+                path,
+                query,
+                fragment,
+            ))
 
         if not path:
             # nothing or only a query or fragment: refers to the sheet itself
@@ -302,7 +315,13 @@ class Replacer:
         if ':' in path.split('/', 1)[0]:
             # a first segment with a colon would be taken for a scheme
             path = './' + path
-        return urllib.parse.urlunsplit(('', '', path, query, fragment))
+        return urllib.parse.urlunsplit((
+            self.scheme,
+            self.location,
+            path,
+            query,
+            fragment,
+        ))
 
     @staticmethod
     def extract_base(uri):
